@@ -114,27 +114,28 @@ Theorem C01_fuel_allocate_price_partial : forall asks bids,
 Proof. exact allocate_price_fuel. Qed.
 Print Assumptions C01_fuel_allocate_price_partial.
 
-(* NOT PROVED (full statements kept visible):
+(** The model of BuildSettlement never reports fuel exhaustion for orders with positive assets
+    and price (every stored order): an [OutOfFuel] result is never mistaken for a rejection. *)
+Theorem C01_fuel : forall asks bids lk,
+  Forall (fun o => 0 < o_assets o /\ 0 < o_price o) asks ->
+  Forall (fun o => 0 < o_assets o /\ 0 < o_price o) bids ->
+  lk <> OutOfFuel ->
+  build asks bids lk <> OutOfFuel.
+Proof. exact build_fuel. Qed.
+Print Assumptions C01_fuel.
 
-   Theorem C01_fuel : forall asks bids lk,
-       Forall valid_order asks -> Forall valid_order bids -> lk <> OutOfFuel ->
-       build asks bids lk <> OutOfFuel.
-     Proved: allocate_assets ([C01_fuel_assets]) and allocate_price under its two preconditions
-     ([C01_fuel_allocate_price_partial], which contains the termination argument of the leftover
-     loop: the budget A*left <= L*(A - assets seen) + (asks seen)*A during the first pass, at most
-     |asks| units left at the wrap-around, one unit per iteration afterwards).  Missing: the
-     plumbing that (a) the two preconditions hold after allocate_assets / split_partial for
-     orders with positive assets and price, and (b) the fuel-free stages (split, set_ask_fees,
-     record_all, idx_get) never return OutOfFuel.  The correspondence check evaluates [build] on
-     every generated case and reports "corr:model_out_of_fuel" should it ever happen.
+(* NOT PROVED (full statements kept visible):
 
    Theorem C01_price_conserved : forall asks bids lk s, build asks bids lk = Ok s ->
        sum of fo_price over the filled asks = sum of fo_price over the filled bids.
      Every [dist_price2] adds the same amount to one ask and one bid, so the statement is an
      invariant of fp_inner / first_pass / consume / leftover_loop; the bookkeeping over the
      zippers was not finished.  Per transfer the statement IS proved ([C01_build_sound], second
-     part: each bid's price transfer hands the sellers exactly what the buyer pays), and the
-     property checker evaluates the sum on every observed settlement.
+     part: each bid's price transfer hands the sellers exactly what the buyer pays).  Also not
+     proved: that what a seller receives through those transfers equals the [fo_price] reported
+     for its ask orders (the price transfers are built from the bids' distributions only).  Both
+     are evaluated by the property checker on every observed settlement
+     ("prop:price_paid_ne_price_received", "prop:transfers_ne_agreed_movements").
 
    Theorem C01_settle_refines_spec (DESIGN section 6): balances' = balances + spec_delta for the
      ten-line specification.  Not proved in Coq; the same specification is the executable checker
